@@ -6,7 +6,7 @@ LEAN_MODULE = "Ucfg.Props.C05"
 LEVEL_TEXT = 'Normalisation theorems for primitives and for combining duplicate definitions; representation erasure and partial flattenings are decided by the correspondence over 8 Go representations with permuted map orders (partial).'
 CORRESPONDENCE = "Normalize.newFrom/normValue/setField/combineV ~ ucfg.NewFrom"
 RULE = ("plain data trees (depth <= 5, 5-key alphabet, nil/empty containers) in up to 8 Go representations of the same tree "
-        "(map[string]interface{}, map[interface{}]interface{}, typed maps/slices, [N]T, pointers, reflect.StructOf structs with tags, "
+        "(map[string]interface{}, map[interface{}]interface{}, typed maps/slices, [N]T, pointers, alternating pointer/interface layers, reflect.StructOf structs with tags, "
         "*Config embedded at random positions) x random partial flattenings into dotted keys (PathSep '.', mixtures of nested and "
         "dotted definitions, list elements addressed by index) x injected duplicate definitions. Oracle: the config unpacks to the "
         "tree the input denotes (numbers by value, nil = empty), re-feeding the result gives the same data, a duplicate is rejected "
@@ -148,6 +148,16 @@ def gen(rng, tier):
         elif "numkeys" not in kinds:
             c["plain"] = plain
         yield c
+
+
+    # the same setting given in both spellings with a null or list padding in one of them (legal, must be accepted in every
+    # insertion order) and the other overlap classes of C09
+    from . import c09
+    orng = rng.fork("overlap")
+    for _ in range(150 if tier == "quick" else 1500):
+        src, kinds = c09.overlapping(orng)
+        yield {"k": "norm", "from": src, "opts": [opt("PathSep", ".")], "repeat": 8, "_tag": "norm/overlap-" + "+".join(sorted(kinds)),
+               "_nt": True, "_sig": "overlap|%s|%d" % ("+".join(sorted(kinds)), len(src["m"]))}
 
 
 def nontrivial(case, impl):
